@@ -21,7 +21,7 @@ ASSUMPTIONS = ['TCP framing: u16 little-endian length of the CPX wire data, then
                'UART framing: 0xFF, length, wire data, XOR checksum; 0xFF 0x00 is the clear-to-send acknowledgement',
                'receiver queues exist before packets arrive (the router drops packets for functions nobody asked for yet)']
 REQUIRED = ['mon.codec', 'mon.bad_version', 'mon.short_streams_all_cuts', 'mon.long_streams', 'mon.router_packets',
-            'mon.tcp_crtp_up', 'mon.tcp_crtp_down', 'mon.serial_crtp_up', 'mon.serial_crtp_down',
+            'mon.tcp_crtp_up', 'mon.tcp_crtp_down', 'mon.serial_crtp_up', 'mon.serial_crtp_down', 'mon.crtp_packet_objects_sent_again',
             'mon.router_streams_with_rejected_frames']
 EXHAUSTIVE = {'quick': False, 'thorough': False}
 EXHAUSTIVE_NOTE = 'cut patterns of short streams (<= 14 bytes) are enumerated completely'
@@ -358,6 +358,22 @@ def crtp_cases(rnd):
     return out
 
 
+def _send_up(d, up, rnd, ob, CRTPPacket):
+    """Send the uplink cases; one packet object in four is handed to the driver again (a re-sent request, a periodic
+    setpoint), and the caller's packet must read the same after every send.  Returns the (header, data) sequence sent."""
+    sent = []
+    for (h, data) in up:
+        pk = CRTPPacket(h, list(data))
+        for _ in range(rnd.choice((1, 1, 1, 2, 3))):
+            d.send_packet(pk)
+            sent.append((h, data))
+            if len(sent) > 1 and sent[-2] == (h, data):
+                ob['resent'] = ob.get('resent', 0) + 1
+            if (pk.header, bytes(pk.data)) != (h | 0x0C, data):
+                ob['mutated'] = (h, data.hex(), pk.header, bytes(pk.data).hex())
+    return sent
+
+
 def run_tcp(desc, ctx):
     harness.init()
     from vf import detsched as ds
@@ -379,9 +395,7 @@ def run_tcp(desc, ctx):
             with contextlib.redirect_stdout(io.StringIO()):
                 d = TcpDriver()
                 d.connect('tcp://192.168.4.1:5000', None, lambda m: ob.__setitem__('err', m))
-                for (h, data) in up:
-                    pk = CRTPPacket(h, list(data))
-                    d.send_packet(pk)
+                up[:] = _send_up(d, list(up), rnd, ob, CRTPPacket)
                 s = b''
                 for (h, data) in down:
                     w = wire(1, 3, 3, True, bytes([h]) + data)
@@ -415,6 +429,9 @@ def run_tcp(desc, ctx):
         b = b[2 + n:]
     crtp = [f for f in frames if len(f) >= 2 and f[1] & 0x3F == 3]
     ctx.count('mon.tcp_crtp_up', len(crtp))
+    ctx.count('mon.crtp_packet_objects_sent_again', ob.get('resent', 0))
+    if ob.get('mutated'):
+        ctx.violate('tcp:send_packet-changed-the-callers-packet', {'header_data_before_after': ob['mutated']})
     want = [wire(3, 1, 3, False, bytes([h]) + data) for (h, data) in up]
     if crtp != want:
         ctx.violate('tcp:uplink-crtp-packets-differ', {'n_want': len(want), 'n_got': len(crtp),
@@ -511,8 +528,7 @@ def run_serial(desc, ctx):
                 ser.q.put(bytes([0x12, 0xFF, 0x00]))      # noise, then the sync sequence
                 d = sd.SerialDriver()
                 d.connect('serial://ttyFAKE0', None, lambda m: ob.__setitem__('err', m))
-                for (h, data) in up:
-                    d.send_packet(CRTPPacket(h, list(data)))
+                up[:] = _send_up(d, list(up), rnd, ob, CRTPPacket)
                 sch.sleep(1.5)      # the driver's receive thread has asked for CRTP packets by now (queue exists)
                 for (h, data) in down:
                     ser.send_frame(wire(1, 3, 3, True, bytes([h]) + data))
@@ -548,6 +564,9 @@ def run_serial(desc, ctx):
         ctx.violate('serial:frame-with-wrong-checksum', {})
     crtp = [f for f, ok in frames if len(f) >= 2 and f[1] & 0x3F == 3]
     ctx.count('mon.serial_crtp_up', len(crtp))
+    ctx.count('mon.crtp_packet_objects_sent_again', ob.get('resent', 0))
+    if ob.get('mutated'):
+        ctx.violate('serial:send_packet-changed-the-callers-packet', {'header_data_before_after': ob['mutated']})
     want = [wire(3, 1, 3, False, bytes([h]) + data) for (h, data) in up]
     if crtp != want:
         ctx.violate('serial:uplink-crtp-packets-differ', {'n_want': len(want), 'n_got': len(crtp),
